@@ -195,6 +195,8 @@ def configs(tier):
         add(modes=("level", "fall"), dw=3, attach=att, order=[1, 0])
         add(modes=("level",), dw=8, attach=att, wvals=(0, 1, 0xFE, 0xFF))
     add(modes=("rise", "fall"), dw=1, attach="dec", dec_offset=True, trigger="rise")
+    add(modes=("level", "rise"), dw=1, attach="dec", align=2)          # two chunks padded to four, through a decoder
+    add(modes=("fall", "level"), dw=1, attach="connect", align=1, driver="lean")
     add(modes=("level", "rise"), dw=1, attach="direct", elab_twice=True)
     add(modes=("fall",), dw=2, attach="connect", elab_twice=True)
     add(modes=("level", "level"), dw=1, attach="direct", align=2)
